@@ -117,6 +117,35 @@ SUBS = [
 ]
 
 
+# ----------------------------------------------------------------------------- many atoms (atom-count dependent code paths)
+def many_path(case):
+    T, N = case['frames'], case['atoms']
+    t_ = np.arange(T, dtype=float).reshape(T, 1, 1)
+    a_ = np.arange(N, dtype=float).reshape(1, N, 1)
+    x_ = np.arange(3, dtype=float).reshape(1, 1, 3)
+    base = np.mod(0.618033988749895 * (a_ + 1) * (x_ + 1) + 0.1 * x_, 1.0)
+    # every atom has its own drift and wobble; per-frame steps stay below 0.3 + 0.1 < 1/2 per component
+    return base + t_ * 0.3 * np.sin(1.0 + 0.37 * a_ + 1.1 * x_ + case['phase']) + 0.05 * np.sin(0.9 * t_ * (1 + (a_ % 5)) + x_)
+
+
+def run_many(case):
+    c = dict(case, path=many_path(case), symbols=(['Li'] * case['atoms'] if case['one_species'] else [['Li', 'Na', 'S'][i % 3] for i in range(case['atoms'])]),
+             species_kind='Species', time_step=1e-15, temperature=300.0, dims_order=(3, 2, 1))
+    info = run(c)
+    N = case['atoms']
+    info['labels'] = [x for x in info['labels'] if not x.startswith('atoms')] + [f'atoms>{256 * (N // 256)}' if N % 256 else 'atoms-multiple-of-256']
+    info['nontrivial'] = True
+    return info
+
+
+@st.composite
+def many_cases(draw, tier):
+    return {'lattice': draw(gen.lattices()), 'frames': draw(st.integers(2, 12 if tier == 'quick' else 40)),
+            'atoms': draw(st.sampled_from([255, 256, 257, 300, 511, 512, 513, 601, 1000, 1025] + ([2049, 4097] if tier == 'thorough' else []))),
+            'phase': draw(st.sampled_from([0.0, 0.5, 2.0])), 'one_species': draw(st.booleans()), 'form': draw(st.sampled_from(['wrapped', 'unwrapped', 'displacements'])),
+            'touch_first': draw(st.booleans()), 'prelude': draw(st.lists(st.sampled_from(['positions', 'displacements', 'msd', 'center_of_mass']), max_size=1))}
+
+
 # ----------------------------------------------------------------------------- very long trajectories (sampled lags)
 def run_long(case):
     """10^4 - 10^5 frames: the MSD at ~60 lags (first, last, powers of two, their neighbours and case-chosen ones) vs the direct definition"""
@@ -223,6 +252,10 @@ SUBS.append(
     Sub(name='enum-frame-counts', kind='enum', run=run_frames, size=EF.size, case_at=EF.case_at, exhaustive=True,
         rule='complete enumeration: every trajectory length 2..260 (quick) / 2..1100 (thorough) frames x 5 deterministic motion patterns (ballistic, zigzag, single hop at the first / last step, rest-then-run) of two atoms that cross cell faces, cell family/orientation/input form cycled with the length; MSD at every lag vs the direct definition, distances, tracer diffusivity',
         shards={'quick': 16, 'thorough': 16}))
+SUBS.append(
+    Sub(name='many-atoms', kind='hyp', run=run_many, strategy=many_cases,
+        rule='255 - 1025 (4097) atoms (around multiples of 256 and 512) x 2-12 (40) frames in all lattices, every atom with its own drift and wobble, one or three species, three input forms: MSD of every atom at every lag vs the direct definition, distances, tracer diffusivity (atom-count dependent code paths)',
+        n={'quick': 4, 'thorough': 30}, shards={'quick': 6, 'thorough': 16}))
 SUBS.append(
     Sub(name='long-trajectories', kind='hyp', run=run_long, strategy=long_cases,
         rule='12 000 - 131 072 (500 000) frames x 1-3 atoms in all lattices (drift + oscillation + one late hop, many face crossings): MSD at ~60 lags (0, 1, 2, 3, T-2, T-1, T/2, T/3, every power of two and its neighbours, 10-30 generated lags) vs the direct definition, distances and tracer diffusivity (size-dependent code paths, FFT padding, accumulated round-off)',
